@@ -107,9 +107,11 @@ func (t *Input) CoerceIn(v interface{}) (interface{}, error) {
 			if rt.Kind() == reflect.Ptr {
 				rt = rt.Elem()
 			}
-			if rt.Kind() == reflect.Struct {
-				rv = reflect.New(rt)
+			if rt.Kind() != reflect.Struct {
+				// Only a struct can be filled from the fields of an object.
+				return nil, newCoerceErr(v, t.Name())
 			}
+			rv = reflect.New(rt)
 		}
 		for k, f := range t.fields.dict {
 			ov := tv[k]
